@@ -129,7 +129,7 @@ CASES = [
     ("m-c17-short-col", "C17", "fire", "xdis/codetype/code311.py", "            start_column = (code * 8) + ((second_byte >> 4) & 7)", "            start_column = (code * 8) + ((second_byte >> 3) & 7)", "start_column"),
     ("m-c17-svarint", "C17", "fire", "xdis/codetype/code311.py", "    if value & 1:\n        return -(value >> 1)\n    return value >> 1", "    if value & 1:\n        return -(value >> 1) - 1\n    return value >> 1", "line_delta"),
     ("s-c17-equiv-bits", "C17", "silent", "xdis/codetype/code311.py", "        return (b & 0b01111000) >> 3  # extracts bits 3-6", "        return (b >> 3) & 15  # extracts bits 3-6", ""),
-    ("m-c19-chunk", "C19", "fire", "xdis/codetype/code30.py", "            while offset_diff >= 256:\n                co_lnotab += bytearray([255, 0])\n                offset_diff -= 255", "            while offset_diff >= 256:\n                co_lnotab += bytearray([256, 0])\n                offset_diff -= 256", "const-address-byte"),
+    ("m-c19-chunk", "C19", "fire", "xdis/codetype/code30.py", "            while offset_diff >= 256:\n                co_lnotab += bytearray([255, 0])\n                offset_diff -= 255", "            while offset_diff >= 256:\n                co_lnotab += bytearray([256, 0])\n                offset_diff -= 256", "roundtrip:"),
     ("m-c19-freeze-attr", "C19", "fire", "xdis/codetype/code30.py", "        if isinstance(self.co_lnotab, str):\n            self.co_lnotab = self.co_lnotab.encode()", "        if isinstance(self.co_linetable, str):\n            self.co_lnotab = self.co_lnotab.encode()", "reads-defined-attributes"),
     # ---------------- later additions (seed-driven rules)
     ("m-c17-colines-onesided-split", "C17", "fire", "xdis/codetype/code311.py", "            linetable_entry.line_delta != 0\n            or linetable_entry.no_line_flag != no_line_flag", "            linetable_entry.line_delta != 0\n            or (linetable_entry.no_line_flag and not no_line_flag)", "co_lines:range-per-entry"),
@@ -142,14 +142,14 @@ CASES = [
     ("m-c20-linedelta-boundary", "C20", "fire", "xdis/cross_dis.py", "                if signed_line_delta and line_delta >= 0x80:", "                if signed_line_delta and line_delta > 0x80:", "C05-R2"),
     ("m-c13-long-noref", "C13", "fire", "xdis/unmarshal.py", "        if n < 0:\n            d = to_long(d * -1)", "        if n < 0:\n            return to_long(-d)", "C01-R3"),
     ("m-c19-divmod-256", "C19", "fire", "xdis/codetype/code30.py", "            while offset_diff >= 256:\n                co_lnotab += bytearray([255, 0])\n                offset_diff -= 255\n",
-     "            if offset_diff >= 256:\n                extra, offset_diff = divmod(offset_diff, 256)\n                co_lnotab += bytearray([255, 0]) * extra\n", "conservation:address"),
+     "            if offset_diff >= 256:\n                extra, offset_diff = divmod(offset_diff, 256)\n                co_lnotab += bytearray([255, 0]) * extra\n", "roundtrip:"),
     ("s-c19-divmod-255", "C19", "silent", "xdis/codetype/code30.py", "            while offset_diff >= 256:\n                co_lnotab += bytearray([255, 0])\n                offset_diff -= 255\n",
      "            if offset_diff >= 256:\n                extra, offset_diff = divmod(offset_diff, 255)\n                co_lnotab += bytearray([255, 0]) * extra\n", ""),
-    ("m-c19-no-reset", "C19", "fire", "xdis/codetype/code15.py", "                co_lnotab += chr(255)\n                offset_diff = 0\n                line_diff -= 255", "                co_lnotab += chr(255)\n                line_diff -= 255", "conservation:address"),
-    ("m-c19-chunk-126", "C19", "fire", "xdis/codetype/code30.py", "                co_lnotab += bytearray([offset_diff, 127])\n                offset_diff = 0\n                line_diff -= 127", "                co_lnotab += bytearray([offset_diff, 127])\n                offset_diff = 0\n                line_diff -= 128", "conservation:line"),
-    ("m-c19-chunk-255-signed", "C19", "fire", "xdis/codetype/code30.py", "            while line_diff >= 128:", "            while line_diff >= 256:", "conservation:line:final pair"),
-    ("m-c19-neg-chunk-unbalanced", "C19", "fire", "xdis/codetype/code30.py", "                co_lnotab += bytearray([offset_diff, 0x80])\n                offset_diff = 0\n                line_diff += 128", "                co_lnotab += bytearray([offset_diff, 0x80])\n                offset_diff = 0\n                line_diff += 127", "conservation:line"),
-    ("m-c19-drop-negative", "C19", "fire", "xdis/codetype/code30.py", "            co_lnotab += bytearray([offset_diff, line_diff & 0xFF])", "            if line_diff >= 0:\n                co_lnotab += bytearray([offset_diff, line_diff & 0xFF])", "conservation"),
+    ("m-c19-no-reset", "C19", "fire", "xdis/codetype/code15.py", "                co_lnotab += chr(255)\n                offset_diff = 0\n                line_diff -= 255", "                co_lnotab += chr(255)\n                line_diff -= 255", "roundtrip:"),
+    ("m-c19-chunk-126", "C19", "fire", "xdis/codetype/code30.py", "                co_lnotab += bytearray([offset_diff, 127])\n                offset_diff = 0\n                line_diff -= 127", "                co_lnotab += bytearray([offset_diff, 127])\n                offset_diff = 0\n                line_diff -= 128", "roundtrip:"),
+    ("m-c19-chunk-255-signed", "C19", "fire", "xdis/codetype/code30.py", "            while line_diff >= 128:", "            while line_diff >= 256:", "roundtrip:"),
+    ("m-c19-neg-chunk-unbalanced", "C19", "fire", "xdis/codetype/code30.py", "                co_lnotab += bytearray([offset_diff, 0x80])\n                offset_diff = 0\n                line_diff += 128", "                co_lnotab += bytearray([offset_diff, 0x80])\n                offset_diff = 0\n                line_diff += 127", "roundtrip:"),
+    ("m-c19-drop-negative", "C19", "fire", "xdis/codetype/code30.py", "            co_lnotab += bytearray([offset_diff, line_diff & 0xFF])", "            if line_diff >= 0:\n                co_lnotab += bytearray([offset_diff, line_diff & 0xFF])", "roundtrip:"),
     ("s-c19-chunk-200", "C19", "silent", "xdis/codetype/code15.py", "            while offset_diff >= 256:\n                co_lnotab += chr(255)\n                co_lnotab += chr(0)\n                offset_diff -= 255", "            while offset_diff >= 256:\n                co_lnotab += chr(200)\n                co_lnotab += chr(0)\n                offset_diff -= 200", ""),
     ("m-c12-ternary-offbyone", "C12", "fire", "xdis/opcodes/format/extended.py", "            stack_inst3 = instructions[k]", "            stack_inst3 = instructions[k + 1]", "index:instructions[k + 1]"),
     ("m-c12-lookup-unchecked", "C12", "fire", "xdis/opcodes/format/extended.py", "            i = get_instruction_index_from_offset(arg1_start_offset, instructions, 1)\n            if i is None:\n                return \"\", None\n        j = skip_cache(instructions, i + 1)",
@@ -182,10 +182,10 @@ CASES = [
     ("m-c04-312-range-ends", "C04", "fire", "xdis/bytecode.py", "            if opc.version_tuple >= (3, 13):\n                # From 3.13 on dis also labels the two ends of the protected range.\n                labels.append(start)\n                labels.append(end)\n\n    # label_maps", "            if opc.version_tuple >= (3, 12):\n                labels.append(start)\n                labels.append(end)\n\n    # label_maps", "exception-entry-components"),
     ("m-c13-py2-freevars-generic", "C13", "fire", "xdis/marsh.py", "        for names in (x.co_freevars, x.co_cellvars):\n            self._write(TYPE_TUPLE)\n            self.w_long(len(names))\n            for name in names:\n                self.dump_string(name)\n", "        self.dump(x.co_freevars)\n        self.dump(x.co_cellvars)\n", "py2-identifier-fields"),
     ("m-c17-positions-per-entry", "C17", "fire", "xdis/codetype/code311.py", "            for _ in range(length):\n                yield (start_line, end_line, start_col, end_col)", "            yield (start_line, end_line, start_col, end_col)", "one-tuple-per-code-unit"),
-    ("m-c19-310-chunk-mismatch", "C19", "fire", "xdis/codetype/code310.py", "                co_linetable += bytearray([0, 127])\n                line_diff -= 127", "                co_linetable += bytearray([0, 127])\n                line_diff -= 128", "conservation:line"),
-    ("m-c19-310-length-mismatch", "C19", "fire", "xdis/codetype/code310.py", "                co_linetable += bytearray([254, line_diff & 0xFF])\n                length -= 254\n                line_diff = 0", "                co_linetable += bytearray([254, line_diff & 0xFF])\n                length -= 255\n                line_diff = 0", "conservation:address"),
-    ("m-c19-310-delta-repeated", "C19", "fire", "xdis/codetype/code310.py", "                length -= 254\n                line_diff = 0\n            co_linetable += bytearray([length, line_diff & 0xFF])", "                length -= 254\n            co_linetable += bytearray([length, line_diff & 0xFF])", "conservation:line"),
-    ("m-c19-310-reserved-minus128", "C19", "fire", "xdis/codetype/code310.py", "            while line_diff < -127:\n                co_linetable += bytearray([0, 0x81])\n                line_diff += 127", "            while line_diff < -128:\n                co_linetable += bytearray([0, 0x81])\n                line_diff += 127", "conservation:line:final pair"),
+    ("m-c19-310-chunk-mismatch", "C19", "fire", "xdis/codetype/code310.py", "                co_linetable += bytearray([0, 127])\n                line_diff -= 127", "                co_linetable += bytearray([0, 127])\n                line_diff -= 128", "roundtrip:"),
+    ("m-c19-310-length-mismatch", "C19", "fire", "xdis/codetype/code310.py", "                co_linetable += bytearray([254, line_diff & 0xFF])\n                length -= 254\n                line_diff = 0", "                co_linetable += bytearray([254, line_diff & 0xFF])\n                length -= 255\n                line_diff = 0", "roundtrip:"),
+    ("m-c19-310-delta-repeated", "C19", "fire", "xdis/codetype/code310.py", "                length -= 254\n                line_diff = 0\n            co_linetable += bytearray([length, line_diff & 0xFF])", "                length -= 254\n            co_linetable += bytearray([length, line_diff & 0xFF])", "roundtrip:"),
+    ("m-c19-310-reserved-minus128", "C19", "fire", "xdis/codetype/code310.py", "            while line_diff < -127:\n                co_linetable += bytearray([0, 0x81])\n                line_diff += 127", "            while line_diff < -128:\n                co_linetable += bytearray([0, 0x81])\n                line_diff += 127", "roundtrip:"),
     ("m-c19-310-lnotab-pairing", "C19", "fire", "xdis/codetype/code310.py", "        for (offset, line_number), (end, _) in zip(entries, ends):\n            length = end - offset", "        for (end, _), (offset, line_number) in zip([(0, None)] + entries, entries):\n            length = offset - end", ""),
     ("s-c19-310-chunk-100", "C19", "silent", "xdis/codetype/code310.py", "            while length > 254:\n                co_linetable += bytearray([254, line_diff & 0xFF])\n                length -= 254\n                line_diff = 0", "            while length > 254:\n                co_linetable += bytearray([100, line_diff & 0xFF])\n                length -= 100\n                line_diff = 0", ""),
     ("m-c02-313-hasarg", "C02", "fire", "xdis/cross_dis.py", "    if opc.version_tuple >= (3, 13):\n        # From 3.13 on the opcode number alone does not tell: WITH_EXCEPT_START sits\n        # at the HAVE_ARGUMENT threshold and takes no operand. dis consults hasarg.\n        return opcode in opc.hasarg\n", "", "WITH_EXCEPT_START:has_arg"),
